@@ -124,13 +124,13 @@ module's (fee collector's) part and one `sdk.Coins` per recipient. Recipient cre
 an append-only `Ledger` (entries `(recipient, denom, amount)`), so a recipient's coins are
 `Ledger.bal` and the sum over all recipients is `Ledger.supply`. -/
 
-structure Dist where
+structure FeeDist where
   total : Coins := []
   module : Coins := []
   recips : Ledger := []
 
 /-- one `Increase(coin, bips, recipient)` call; `rcpt = ""` is "no recipient". -/
-def increase (s : Dist) (den : Denom) (amt : Int) (bips : Nat) (rcpt : String) : Except AErr Dist :=
+def distIncrease (s : FeeDist) (den : Denom) (amt : Int) (bips : Nat) (rcpt : String) : Except AErr FeeDist :=
   if amt ≤ 0 then .ok s        -- `!coin.IsPositive()`: nothing to distribute
   else
     let total := s.total.add [(den, amt)]
@@ -143,14 +143,14 @@ def increase (s : Dist) (den : Denom) (amt : Int) (bips : Nat) (rcpt : String) :
               recips := s.recips.credit rcpt [(den, r)] }
 
 /-- a call of the sequence: denom, amount, recipient basis points, recipient -/
-abbrev DistCall := Denom × Int × Nat × String
+abbrev FeeDistCall := Denom × Int × Nat × String
 
 /-- the calls of one transaction, in order; stops at the first error like the msg-fee handler -/
-def increaseAll (s : Dist) : List DistCall → Except AErr Dist
+def distIncreaseAll (s : FeeDist) : List FeeDistCall → Except AErr FeeDist
   | [] => .ok s
   | (den, amt, bips, rcpt) :: rest =>
-    match increase s den amt bips rcpt with
+    match distIncrease s den amt bips rcpt with
     | .error e => .error e
-    | .ok s' => increaseAll s' rest
+    | .ok s' => distIncreaseAll s' rest
 
 end PvModel.Fees
